@@ -252,3 +252,13 @@ package server
 //@   claims at-call at-return
 //@   at-call ^path.Clone( requires arg1
 //@   at-return requires path0 != nil && !old(path0.IsWithdraw) && old(!peer.isLLGREnabledFamily(path0.GetFamily()) && path0.IsLLGRStale()) ==> ret0 != path0 && called(Clone)
+
+// =============================================================================================
+// C19 - zebra: a route message the decoder accepts is turned into a path without a panic
+// =============================================================================================
+//@ props C19
+// the decoder synthesises next hops without a gateway (interface-only routes, EVPN flag): the gateway is only
+// used as the BGP next hop when there is one
+//@ func newPathFromIPRouteMessage
+//@   claims at-call
+//@   at-call netip.MustParseAddr(body.Nexthops[0].Gate.String()) requires body.Nexthops[0].Gate.IsValid()
